@@ -324,6 +324,110 @@ def run(chk):
                 chk.ob("C13-D5.random", fn.key, "draw @%d outside parallel regions" % c.get("l", 0), not inside, fn.loc(c))
     chk.floor("C13-D5.random", nps, 3, "random draws in ParticleSwarm")
 
+    # ------------------------------------------------------------------ D8 const calls on shared objects inside parallel regions
+    chk.rule("C13-D8.purecalls", "a member function called inside a parallel region on an object that all threads share (not declared in the region, not indexed by the worksharing variable) "
+                                 "and outside critical/atomic has a pure call-graph closure in the sense of C12-D1 (no write to a mutable member, a static or through const_cast, acceleration "
+                                 "mode none): a lazily filled cache behind a const interface makes the first parallel loop over it a race. "
+                                 "Accepted: a cache whose refill test reads only the state of the object, after a serial call of the same method on the same object that dominates the region")
+    from tsg.effects import Purity
+    from rules.c12 import gpu_only_call
+    P13 = Purity(db, skip_call=gpu_only_call)
+    pmemo = {}
+
+    # call sites of every function (for the lazy-cache test below)
+    callers = {}
+    for fns_ in db.load_all().values():
+        for g_ in fns_:
+            if g_.file.startswith("@verif"):
+                continue
+            for c_ in g_.calls():
+                t_ = db.resolve(c_)
+                if t_ is not None:
+                    callers.setdefault((t_.key, t_.sig), []).append((g_, c_))
+
+    def state_guard(g_, node, member):
+        """node is control dependent on a condition that reads `member` of the object and no parameter of g_: the write happens
+        only while the cache is stale, whatever the arguments are"""
+        prm = {p_["did"] for p_ in g_.params()}
+        for cnd, truth in cond_edges_dominating(g_, node):
+            ms = [q for q in [cnd] + list(walk(cnd)) if q.get("k") == "MemberExpr" and short(q.get("field") or "") == member]
+            ps = [q for q in [cnd] + list(walk(cnd)) if q.get("k") == "DeclRefExpr" and q.get("did") in prm]
+            if ms and not ps:
+                return True
+        return False
+
+    def lazy_cache(f2, n2, what):
+        m = short(what)
+        if state_guard(f2, n2, m):
+            return True
+        cs = [(g_, c_) for g_, c_ in callers.get((f2.key, f2.sig), []) if g_.d.get("const")]
+        return bool(cs) and all(state_guard(g_, c_, m) for g_, c_ in cs)
+
+    def impure(t):
+        """[(description, is a state-guarded lazy cache)]"""
+        k = (t.key, t.sig)
+        if k not in pmemo:
+            found = P13.closure(t)
+            res = {}
+            for path, f2, n2, kind, what in found:
+                d_ = "%s %s in %s" % (kind, short(what), short(f2.name))
+                res[d_] = res.get(d_, True) and kind == "mutable-member" and lazy_cache(f2, n2, what)
+            pmemo[k] = sorted(res.items())
+        return pmemo[k]
+    ncall8 = 0
+    for fns in db.load_all().values():
+        for fn in fns:
+            # the property is stated for the library: the command line tool decides itself in which state its grid reaches a loop
+            if not fn.file.startswith(("SparseGrids/", "DREAM/", "Addons/")) or "/test" in fn.file.lower() or "Tester" in fn.file or fn.d.get("islambda"):
+                continue
+            tops = [p for p in omp_nodes(fn) if p["omp"] in PARALLEL and not any("omp" in a and a["omp"] in PARALLEL for a in fn.ancestors(p))]
+            for p in tops:
+                R = Region(fn, p)
+                for c in walk(p):
+                    if c.get("k") != "CXXMemberCallExpr" or R.in_exclusive(c) is not None:
+                        continue
+                    h = callee_node(c) or {}
+                    if not h.get("cm"):
+                        continue            # non-const calls on shared objects are container mutations, decided by D1
+                    o = call_object(c)
+                    if o is None:
+                        continue
+                    root = base_var(o)
+                    if (root is not None and root in R.private and not (fn.locals().get(root) or {}).get("t", "").rstrip().endswith(("*", "&"))) or R.mentions_loopvar(o):
+                        continue
+                    ts = [t for t in P13.targets(fn, c) if not (t.name or "").startswith("std::")]
+                    if not ts:
+                        continue
+                    ncall8 += 1
+                    imp = []
+                    for t in ts:
+                        imp += impure(t)
+                    detail = "pure closure"
+                    bad = sorted({d_ for d_, lazy in imp})
+                    if imp:
+                        chk.saw(fn)
+                        # a serial call of the same method on the same object that dominates the region fills every cache whose refill test reads only the object's state
+                        warm = [w for w in fn.calls(into_lambda=False) if w is not c and not any(x is w for x in walk(p)) and (callee(w) or "") == (callee(c) or "") and
+                                txt(strip(call_object(w)) or {}) == txt(strip(o)) and call_object(w) is not None]
+                        pb = fn.cfg.block_of(p) or fn.cfg.block_of(c)
+                        dom = [w for w in warm if fn.cfg.block_of(w) is not None and pb is not None and fn.cfg.dominates(fn.cfg.block_of(w)[0], pb[0])]
+                        # the warm-up may sit under `if (n > 0)` when the loop then runs for n > 1 only: accept a guard whose variable is the loop bound
+                        if not dom and warm:
+                            lv, loop = None, None
+                            from tsg.omp import loop_var_of
+                            lv, loop = loop_var_of(p)
+                            bound = {q.get("did") for q in walk(loop.get("cond") or {}) if q.get("k") == "DeclRefExpr"} if loop is not None else set()
+                            for w in warm:
+                                ce = list(cond_edges_dominating(fn, w))
+                                if ce and all(any(q.get("k") == "DeclRefExpr" and q.get("did") in bound for q in walk(cn)) for cn, tr in ce):
+                                    dom.append(w)
+                        if dom and all(lazy for d_, lazy in imp):
+                            detail = "lazily filled cache (%s), filled by the serial call at line %d before the region" % ("; ".join(bad)[:120], dom[0].get("l", 0))
+                            bad = []
+                    chk.ob("C13-D8.purecalls", fn.key, "const call %s on a shared object in the region @%d" % (short(callee(c) or "?"), p.get("l", 0)), not bad, fn.loc(c),
+                           ("reaches: " + "; ".join(bad)[:260]) if bad else detail)
+    chk.floor("C13-D8.purecalls", ncall8, 40, "const member calls on shared objects inside parallel regions")
+
     chk.note("C13-D6", "SparseGrids/tsgSequenceOptimizer.cpp", "Optimizer::computeMaximum merges per-thread maxima under critical with a strict '>' and no index tie-break: an *exact* tie "
              "would be resolved by arrival order. A replay (OpenMP build, 1..16 threads, leja / max-lebesgue / min-lebesgue / min-delta greedy nodes) showed identical nodes for all "
              "thread counts, so this is recorded as a note, not as a finding.")
